@@ -70,6 +70,8 @@ type Partition struct {
 	End      int64 // next offset to assign (= high watermark)
 	// OpenTxnFrom > 0: a transaction is open from this offset on, the last stable offset is this and not End
 	OpenTxnFrom int64
+	// Aborted: aborted transactions (producer id, first offset) reported to read_committed consumers with every fetch
+	Aborted [][2]int64
 	encCache map[encKey][]byte
 }
 
